@@ -72,6 +72,8 @@ func (s sliceColor) RGBA() (r, g, b, a uint32) {
 	return uint32(s[0]), uint32(s[1]), uint32(s[2]), 0xffff
 }
 
+// swappedSchemeBase+k is scheme k with ink and paper exchanged (same colour model).
+const swappedSchemeBase = 1000000
 const degenerateSchemeBase = 100000
 const degenerateSchemeClasses = 7
 
@@ -114,6 +116,11 @@ func sameScheme(a, b barcode.ColorScheme) bool {
 
 // schemeOf maps a scheme id to a colour scheme; ids 0..3 are the library's own.
 func schemeOf(id int64) barcode.ColorScheme {
+	if id >= swappedSchemeBase {
+		s := schemeOf(id - swappedSchemeBase)
+		s.Foreground, s.Background = s.Background, s.Foreground
+		return s
+	}
 	if id >= degenerateSchemeBase {
 		return degenerateScheme(id - degenerateSchemeBase)
 	}
